@@ -108,7 +108,7 @@ def unpack_impl(pkt, raw, offset, **k):
         cookie_hash.update(pack_code.encode('utf-8'))
         cookie_hash.update(unpack_code.encode('utf-8'))
         cookie = cookie_hash.hexdigest()
-        cookie_code = f"BISTURI_PACKET_COOKIE = '{cookie}'\n"
+        cookie_code = f"BISTURI_PACKET_COOKIE_AT_END = '{cookie}'\n"
 
         HOLE_STMTS_cache
 
